@@ -97,6 +97,10 @@ FirstOf(sh, fn) == LET RECURSIVE S(_) S(k) == IF k >= fn THEN 0 ELSE Weight(sh[k
 RunShaped(sh, f) == \A fn \in DOMAIN sh : \A a, b \in FirstOf(sh, fn)..(FirstOf(sh, fn) + Weight(sh[fn]) - 1) :
                         (a < b /\ f[a] = "untested") => f[b] \in {"untested", "skipped"}
 
+\* which feature may be the hook-failed one: any -- except in the largest two-feature models of the thorough bound
+\* (4 scenarios), where only the first is tried (keeps the thorough tier inside its time budget)
+HkMax(sh) == IF MaxScen >= 4 /\ Len(sh) = 2 /\ NScen(sh) = MaxScen THEN 1 ELSE Len(sh)
+
 \* ---------------------------------------------------------------- state space
 \* m = the model of the state, built once when the state is created (the invariants only read it)
 VARIABLES ph, sh, ss, hk, m
@@ -104,7 +108,7 @@ vars == <<ph, sh, ss, hk, m>>
 Init == ph = "start" /\ sh = <<>> /\ ss = <<>> /\ hk = 0 /\ m = <<>>
 Next == \/ ph = "start" /\ ph' = "shape" /\ sh' \in Shapes /\ UNCHANGED <<ss, hk, m>>
         \/ ph = "shape" /\ ph' = "case" /\ sh' = sh /\ ss' \in {f \in [1..NScen(sh) -> StatusSet] : RunShaped(sh, f)}
-           /\ hk' \in 0..Len(sh) /\ m' = Model(sh, ss', hk')
+           /\ hk' \in 0..HkMax(sh) /\ m' = Model(sh, ss', hk')
 Spec == Init /\ [][Next]_vars
 
 \* features announced to the formatters: all with show_skipped, otherwise those not skipped as a whole
